@@ -1,5 +1,6 @@
 import FV.Proofs.Glb
 import FV.Proofs.GlbAlloc
+import FV.Proofs.GlbOpt
 /-
   C10 — Global floorplanning returns a feasible allocation and rigid hard modules.
 
@@ -24,6 +25,14 @@ import FV.Proofs.GlbAlloc
 
   | `glbfloor_correct` (ONE statement about   | `SolverOK`: `SolverPost` + `ConstRespect` of every answer given on |
   |  the returned value, vs the INPUT netlist) | a state satisfying the loop invariant                            |
+
+  | `posted_constraints_imply_solverPost`,     | the point returned satisfies what `optimize_allocation` POSTED     |
+  | `glbfloor_correct_posted`                  | (`FV/Model/GlbOpt.lean`: bounds, constants, capacity, hard-sum     |
+  |                                            | rows) within `tolI`/`tolE`; non-convergence ⇒ raise (`solve=none`) |
+
+  The start-state hypotheses `hv`, `hin`, `hown` of `glbfloor_correct` are established for what
+  `create_initial_allocation` returns on a valid die by `FV.C03.initial_allocation_is_glb_start`; `hfc` (centres of the
+  fixed modules inside the die) is an input fact.
 
   Honest reading of `extract_ratios` / clauses 3-4 of `glbfloor_correct`: "cell total ≤ 1 + tol" and "centre in the die" are
   the solver hypothesis pushed through FRAME's bookkeeping (threshold filtering cannot increase a row; centres are copied
@@ -499,7 +508,8 @@ theorem glbfloorA_cells_disjoint (env : Env α) (solve : AState α → Option (A
 /-! ### ONE theorem about the value `glbfloor` returns
 
 All clauses of the property about the value returned by the loop with the allocation model plugged in, against the INPUT
-netlist, across all passes.  Hypotheses: the start (`ValidAlloc`, cells inside the die, `FixedOwn` for the fixed modules:
+netlist, across all passes.  Hypotheses: the start (`ValidAlloc`, cells inside the die, the centres of the fixed modules
+inside the die — an input fact, no longer part of the solver assumption —, `FixedOwn` for the fixed modules:
 what `create_initial_allocation` produces, `FV.C03.fixed_full` — the REMAINING start-state hypothesis, not derived here
 because C03 has its own netlist model); the parameters `0 < thr`, `0 ≤ tol ≤ 1 - thr`, at least one pass; and `SolverOK`:
 every answer the solver gives satisfies `SolverPost` for the state it was asked about, and reads FRAME's constants of
@@ -583,6 +593,7 @@ structure GlbInv (die : Rect α) (init s : AState α) : Prop where
     f ∈ s.mods ∧ FixedOwn (s.alloc.cells.map ofCell) f ∧
     ∀ c0 ∈ init.alloc.cells, c0.alloc = [(f.name, 1)] → c0.rect.fixed = true →
       ∃ d ∈ s.alloc.cells, d.rect = c0.rect ∧ d.alloc = [(f.name, 1)]
+  fixedCentres : ∀ m ∈ s.mods, m.fixed = true → InDie die m.cx m.cy
 
 /-- WHAT IS ASSUMED OF EVERY SOLVER CALL in the composed theorem: the answer satisfies `SolverPost` for the state the
     solver was asked about (only states satisfying the loop invariant `GlbInv` matter), and FRAME's constants for the fixed modules are read back (`ConstRespect`: by construction
@@ -596,7 +607,7 @@ theorem glbInv_refine (env : Env α) (thr : α) (die : Rect α) (init s r : ASta
     (hs : GlbInv die init s) (h : refineA env thr s = some r) : GlbInv die init r := by
   obtain ⟨r', h1, hf, hm, href⟩ := refineA_spec env thr _ die init.eps s hs.feasible.valid.epsArea hs.feasible
   rw [h1] at h; cases h
-  refine ⟨hf, hm ▸ hs.mods, fun f hfm hfx => ?_⟩
+  refine ⟨hf, hm ▸ hs.mods, fun f hfm hfx => ?_, hm ▸ hs.fixedCentres⟩
   obtain ⟨a1, a2, a3⟩ := hs.fixed f hfm hfx
   refine ⟨hm ▸ a1, fixedOwn_refines _ _ f href a2, fun c0 hc0 hal hfix => ?_⟩
   obtain ⟨d, hd, hdr, hda⟩ := a3 c0 hc0 hal hfix
@@ -618,7 +629,13 @@ theorem glbInv_optimize (env : Env α) (solve : AState α → Option (Answer α)
       unfold AState.cells; rw [List.map_map]; rfl
     have hlen : (s.alloc.cells.map ofCell).length = s.alloc.cells.length := by simp
     refine ⟨hf, forall₂_trans_of (fun a b c h1 h2 => modRel_trans a b c h1 (modRel_step ans b c h2)) hs.mods hstep,
-      fun f hfm hfx => ?_⟩
+      fun f hfm hfx => ?_, fun m' hm' hfx' => ?_⟩
+    swap
+    · obtain ⟨m, hm, hu⟩ := forall₂_mem_right hstep m' hm'
+      obtain ⟨hx, hy, _, _, hfx2, _⟩ := updateModule_fields ans m m' hu
+      have hfm : m.fixed = true := by rw [← hfx2]; exact hfx'
+      have cr := hcr m hm hfm
+      rw [hx, hy, cr.x, cr.y]; exact hs.fixedCentres m hm hfm
     obtain ⟨a1, a2, a3⟩ := hs.fixed f hfm hfx
     have cr := hcr f a1 hfx
     have hnn : ∀ m ∈ s.mods, ∀ c < (s.alloc.cells.map ofCell).length, 0 ≤ ans.a m.name c :=
@@ -657,6 +674,7 @@ theorem glbfloor_correct (env : Env α) (solve : AState α → Option (Answer α
     (maxIter : Option Nat) (fuel : Nat) (init r : AState α)
     (hv : ValidAlloc init.eps init.alloc) (hin : ∀ c ∈ init.alloc.cells, c.rect.isInside die = true)
     (hown : ∀ f ∈ init.mods, f.fixed = true → FixedOwn (init.alloc.cells.map ofCell) f)
+    (hfc : ∀ f ∈ init.mods, f.fixed = true → InDie die f.cx f.cy)
     (hthr : 0 < thr) (htol0 : 0 ≤ tol) (htol : tol ≤ 1 - thr) (hlim : maxIter ≠ some 0)
     (hsol : SolverOK solve tol die init)
     (h : glbfloorA env solve thr maxIter fuel init = some r) :
@@ -672,7 +690,7 @@ theorem glbfloor_correct (env : Env α) (solve : AState α → Option (Answer α
         ∃ d ∈ r.alloc.cells, d.rect = c0.rect ∧ d.alloc = [(f.name, 1)]) := by
   have h0 : Feasible die init.eps.area init.eps init := ⟨rfl, hv, hin, hv.cells.noOverlap⟩
   have hinv0 : GlbInv die init init :=
-    ⟨h0, forall₂_refl_of modRel_refl _, fun f hf hfx => ⟨hf, hown f hf hfx, fun c0 hc0 hal _ => ⟨c0, hc0, rfl, hal⟩⟩⟩
+    ⟨h0, forall₂_refl_of modRel_refl _, fun f hf hfx => ⟨hf, hown f hf hfx, fun c0 hc0 hal _ => ⟨c0, hc0, rfl, hal⟩⟩, hfc⟩
   have hinv : GlbInv die init r :=
     loopG_invariant _ _ _ maxIter (GlbInv die init)
       (fun s r hs hr => glbInv_refine env thr die init s r hs hr)
@@ -702,6 +720,146 @@ theorem glbfloor_correct (env : Env α) (solve : AState α → Option (Answer α
       (by rw [List.getElem?_eq_getElem hi']) (by rw [List.getElem?_eq_getElem hi])
     obtain ⟨_, _, _, hh', hf', _⟩ := updateModule_fields ans _ _ hu
     exact (hm.1 (hh' ▸ hh) (hf' ▸ hnf)).2
+
+/-! ### what `optimize_allocation` posts implies what is assumed of the answer
+
+`FV/Model/GlbOpt.lean` generates the bounds, constants and equations `optimize_allocation` hands to GEKKO (checked
+node-for-node against the real GEKKO model on every harness instance).  A point satisfying them — bounds and constants
+exactly, `<=`/`>=` within `tolI`, `==` within `tolE` — yields an answer with `SolverPost` and `ConstRespect`.  So the solver
+hypothesis of `glbfloor_correct` becomes: "whenever the solver returns, it returns a point satisfying what FRAME posted,
+within its tolerances" (and: when it does not converge it raises — `solve = none` —, observed by the harness on every
+solve).  Not used by this implication (hence irrelevant to C10): the area, centroid, rigid-offset and dispersion equations
+and the objective. -/
+
+/-- `get_a` of any module on an allocation with proper cells and ratios in `[0,1]` is in `[0,1]`. -/
+theorem getA_unit (offered : List (RectAlloc α)) (mm : Glb.Module α)
+    (hok : ∀ ra ∈ offered, 0 < ra.rect.w ∧ 0 < ra.rect.h ∧ ∀ p ∈ ra.alloc, 0 ≤ p.2 ∧ p.2 ≤ 1)
+    (c : Nat) (v : α) (h : getA offered mm c = some v) : 0 ≤ v ∧ v ≤ 1 := by
+  unfold getA at h
+  cases hoc : offered[c]? with
+  | none => rw [hoc] at h; cases h
+  | some ra =>
+    rw [hoc] at h; simp only at h
+    obtain ⟨hw, hh, hr⟩ := hok ra (List.mem_of_getElem? hoc)
+    cases hl : ra.alloc.lookup mm.name with
+    | some w =>
+      rw [hl] at h; cases h
+      exact hr _ (mem_of_lookup _ _ _ hl)
+    | none =>
+      rw [hl] at h; simp only at h
+      split at h
+      · rename_i r _
+        cases h
+        have hA : 0 < ra.rect.area := by unfold Rect.area; positivity
+        have h0 := C18.areaOverlap_nonneg ra.rect r
+        have hle : ra.rect.areaOverlap r ≤ ra.rect.area := by
+          rw [Rect.areaOverlap_eq]
+          have e1 : Rect.ovLen ra.rect.xmin ra.rect.xmax r.xmin r.xmax ≤ ra.rect.w := by
+            have := Rect.xmax_sub_xmin ra.rect; unfold Rect.ovLen; grind
+          have e2 : Rect.ovLen ra.rect.ymin ra.rect.ymax r.ymin r.ymax ≤ ra.rect.h := by
+            have := Rect.ymax_sub_ymin ra.rect; unfold Rect.ovLen; grind
+          unfold Rect.area
+          exact mul_le_mul e1 e2 (Rect.ovLen_nonneg ..) (le_of_lt hw)
+        exact ⟨div_nonneg h0 (le_of_lt hA), (div_le_one hA).mpr hle⟩
+      · cases h; simp
+
+/-- **posted_constraints_imply_solverPost**: every point `σ` that satisfies what `optimize_allocation` posts for the
+    offered allocation and netlist `inp` gives an answer (`ansOf σ`: what `extract_solution` reads) with `SolverPost`, for
+    the tolerance `tolI + (#movable hard modules)·tolE`, and `ConstRespect` for every fixed module.  Facts about the INPUT
+    used: offered ratios / `get_a` in `[0,1]` (`getA_unit`), centres of the fixed modules inside the die. -/
+theorem posted_constraints_imply_solverPost (inp : GlbOpt.Input α) (σ : GlbOpt.V → α) (tolI tolE : α)
+    (hs : GlbOpt.Sat σ tolI tolE (GlbOpt.post inp))
+    (hunit : ∀ mm ∈ modelModules inp.mods, ∀ c v, getA inp.offered mm c = some v → 0 ≤ v ∧ v ≤ 1)
+    (hfc : ∀ f ∈ inp.mods, f.fixed = true → InDie inp.die f.cx f.cy) :
+    SolverPost (GlbOpt.ansOf σ) (tolI + ((inp.mods.filter GlbOpt.movable).length : α) * tolE) inp.die inp.mods
+      inp.offered.length ∧
+    ∀ f ∈ inp.mods, f.fixed = true → ConstRespect (GlbOpt.ansOf σ) inp.offered f := by
+  refine ⟨⟨fun m hm c hc => ?_, fun c hc => GlbOpt.rows_of_sat inp σ tolI tolE hs c hc, fun m hm => ?_⟩, fun f hf hfx => ?_⟩
+  · by_cases hmv : GlbOpt.movable m = true
+    · exact (GlbOpt.movable_bounds inp σ tolI tolE hs m hm hmv).1 c hc
+    · exact GlbOpt.a_model_bounds inp σ tolI tolE hs hunit m
+        (GlbOpt.mem_modelModules_self inp.mods m hm (by simpa using hmv)) c hc
+  · show InDie inp.die (σ (.x m.name)) (σ (.y m.name))
+    by_cases hmv : GlbOpt.movable m = true
+    · exact (GlbOpt.movable_bounds inp σ tolI tolE hs m hm hmv).2
+    · by_cases hfx : m.fixed = true
+      · obtain ⟨hx, hy, _⟩ := GlbOpt.fixed_consts inp σ tolI tolE hs m hm hfx
+        rw [hx, hy]; exact hfc m hm hfx
+      · exact GlbOpt.model_centre_bounds inp σ tolI tolE hs m
+          (GlbOpt.mem_modelModules_self inp.mods m hm (by simpa using hmv)) (by simpa using hfx)
+  · obtain ⟨hx, hy, ha⟩ := GlbOpt.fixed_consts inp σ tolI tolE hs f hf hfx
+    exact ⟨ha, hx, hy⟩
+
+theorem solverPost_mono (ans : Answer α) (tol tol' : α) (die : Rect α) (mods : List (Glb.Module α)) (n : Nat)
+    (h : SolverPost ans tol die mods n) (hle : tol ≤ tol') : SolverPost ans tol' die mods n :=
+  ⟨h.bounds, fun c hc => le_trans (h.rows c hc) (by linarith), h.centres⟩
+
+/-- the input of the constraint generator for a loop state (`areaOf`, `edges`: the soft modules' areas and the nets,
+    which the loop state does not carry and the implication does not use). -/
+def inputOf (die : Rect α) (thr : α) (o : AState α) (areaOf : String → α) (edges : List Nat) : GlbOpt.Input α :=
+  { die := die, epsD := o.eps.dist, thr := thr, offered := o.alloc.cells.map ofCell, mods := o.mods,
+    areaOf := areaOf, edgeSizes := edges }
+
+/-- WHAT REMAINS ASSUMED OF THE SOLVER: whenever it returns an answer for a state of the loop, the answer is read from
+    a point that satisfies what `optimize_allocation` posted for that state, within the tolerances. -/
+def SolverMeetsPosted (solve : AState α → Option (Answer α)) (tolI tolE thr : α) (die : Rect α) (init : AState α) : Prop :=
+  ∀ o ans, GlbInv die init o → solve o = some ans →
+    ∃ (σ : GlbOpt.V → α) (areaOf : String → α) (edges : List Nat),
+      ans = GlbOpt.ansOf σ ∧ GlbOpt.Sat σ tolI tolE (GlbOpt.post (inputOf die thr o areaOf edges))
+
+theorem solverOK_of_posted (solve : AState α → Option (Answer α)) (tolI tolE thr : α) (die : Rect α) (init : AState α)
+    (htE : 0 ≤ tolE) (h : SolverMeetsPosted solve tolI tolE thr die init) :
+    SolverOK solve (tolI + (init.mods.length : α) * tolE) die init := by
+  intro o ans hinv hsv
+  obtain ⟨σ, areaOf, edges, rfl, hsat⟩ := h o ans hinv hsv
+  have hunit : ∀ mm ∈ modelModules (inputOf die thr o areaOf edges).mods, ∀ c v,
+      getA (inputOf die thr o areaOf edges).offered mm c = some v → 0 ≤ v ∧ v ≤ 1 := by
+    intro mm _ c v hg
+    refine getA_unit _ mm ?_ c v hg
+    intro ra hra
+    obtain ⟨cell, hcell, rfl⟩ := List.mem_map.mp hra
+    obtain ⟨hw, hh, _⟩ := hinv.feasible.valid.cells.good cell hcell
+    refine ⟨hw, hh, fun p hp => ?_⟩
+    have := hinv.feasible.valid.cells.allocs cell hcell
+    unfold allocOK at this
+    simp only [Bool.and_eq_true, List.all_eq_true, decide_eq_true_eq, Rect.zero_eq, Alloc.one_eq] at this
+    exact ⟨(this.1 p hp).1.2, (this.1 p hp).2⟩
+  obtain ⟨post, cr⟩ := posted_constraints_imply_solverPost (inputOf die thr o areaOf edges) σ tolI tolE hsat hunit
+    hinv.fixedCentres
+  have hlen : (o.alloc.cells.map ofCell).length = o.alloc.cells.length := by simp
+  refine ⟨?_, cr⟩
+  have hcount : (((inputOf die thr o areaOf edges).mods.filter GlbOpt.movable).length : α) ≤ (init.mods.length : α) := by
+    have h1 : (o.mods.filter GlbOpt.movable).length ≤ o.mods.length := List.length_filter_le _ _
+    have h2 : o.mods.length = init.mods.length := hinv.mods.length_eq.symm
+    exact_mod_cast (h2 ▸ h1)
+  have := solverPost_mono _ _ (tolI + (init.mods.length : α) * tolE) _ _ _ post
+    (by have := mul_le_mul_of_nonneg_right hcount htE; linarith)
+  simpa [inputOf, hlen] using this
+
+/-- **C10 with the solver hypothesis reduced to "the returned point satisfies what FRAME posted"**: all conclusions of
+    `glbfloor_correct`, for `tol = tolI + (#modules)·tolE`. -/
+theorem glbfloor_correct_posted (env : Env α) (solve : AState α → Option (Answer α)) (thr tolI tolE : α) (die : Rect α)
+    (maxIter : Option Nat) (fuel : Nat) (init r : AState α)
+    (hv : ValidAlloc init.eps init.alloc) (hin : ∀ c ∈ init.alloc.cells, c.rect.isInside die = true)
+    (hown : ∀ f ∈ init.mods, f.fixed = true → FixedOwn (init.alloc.cells.map ofCell) f)
+    (hfc : ∀ f ∈ init.mods, f.fixed = true → InDie die f.cx f.cy)
+    (hthr : 0 < thr) (htI : 0 ≤ tolI) (htE : 0 ≤ tolE) (htol : tolI + (init.mods.length : α) * tolE ≤ 1 - thr)
+    (hlim : maxIter ≠ some 0)
+    (hsol : SolverMeetsPosted solve tolI tolE thr die init)
+    (h : glbfloorA env solve thr maxIter fuel init = some r) :
+    CellsFeasible die init.eps.area r ∧
+    (∀ c ∈ r.alloc.cells, c.alloc ≠ [] ∧ ∀ p ∈ c.alloc, 0 ≤ p.2 ∧ p.2 ≤ 1) ∧
+    (∀ c ∈ r.alloc.cells, (c.alloc.map (·.2)).sum ≤ 1 + (tolI + (init.mods.length : α) * tolE)) ∧
+    (∀ m ∈ r.mods, InDie die m.cx m.cy) ∧
+    List.Forall₂ ModRel init.mods r.mods ∧
+    (∀ m ∈ r.mods, m.hard = true → m.fixed = false → IsCentroid m.rects m.cx m.cy) ∧
+    (∀ f ∈ init.mods, f.fixed = true →
+      f ∈ r.mods ∧ FixedOwn (r.alloc.cells.map ofCell) f ∧
+      ∀ c0 ∈ init.alloc.cells, c0.alloc = [(f.name, 1)] → c0.rect.fixed = true →
+        ∃ d ∈ r.alloc.cells, d.rect = c0.rect ∧ d.alloc = [(f.name, 1)]) :=
+  glbfloor_correct env solve thr _ die maxIter fuel init r hv hin hown hfc hthr
+    (by have := mul_nonneg (Nat.cast_nonneg (α := α) init.mods.length) htE; linarith) htol hlim
+    (solverOK_of_posted solve tolI tolE thr die init htE hsol) h
 
 /-! ### non-vacuity: concrete instances meet the hypotheses -/
 
@@ -760,6 +918,26 @@ def exRawA : List (RawCell ℚ) :=
 example : (match mkAllocation exEnvA ⟨1/1000000, 1/1000⟩ exRawA with
     | .ok (a, st) => (glbfloorA exEnvA (fun _ => some exAns) (9/10) (some 2) 5 ⟨a, st, exMods⟩).isSome
     | .error _ => false) = true := by decide +kernel
+
+/-- what is posted for a soft module `S` (area 2) and the fixed module `F` on the two offered cells, threshold 0.9:
+    5 variables (`x_S, y_S, d_S, a_S_0, a_S_1`), 4 constants (`x_F, y_F, a_F_0 = 0, a_F_1 = 1`), 2 capacity rows, and
+    per module an area row, two centroid rows (+ the dispersion stub of `S`), one net, the dispersion objective. -/
+def exInp : GlbOpt.Input ℚ :=
+  { die := ⟨2, 1, 4, 2, "_", false, false, .nopoly⟩, epsD := 1/1000000, thr := 9/10, offered := exOffered,
+    mods := [⟨"S", false, false, false, 1, 1, []⟩, exF], areaOf := fun n => if n = "S" then 2 else 4, edgeSizes := [2] }
+
+example : ((GlbOpt.post exInp).vars.length, (GlbOpt.post exInp).consts.length, (GlbOpt.post exInp).rows.length) =
+    (5, 4, 11) := by decide +kernel
+
+/-- a point satisfying everything that is posted there (all residuals 0, all bounds met): `a_S_0 = 1/2`, centre (1,1). -/
+def exSigma : GlbOpt.V → ℚ
+  | .a "S" 0 => 1/2 | .a "F" 1 => 1 | .x "S" => 1 | .y "S" => 1 | .x "F" => 3 | .y "F" => 1 | _ => 0
+
+example : ((GlbOpt.post exInp).rows.all fun r => decide (GlbOpt.residual exSigma r = 0)) = true := by decide +kernel
+example : ((GlbOpt.post exInp).consts.all fun d => decide (exSigma d.1 = d.2)) = true := by decide +kernel
+example : ((GlbOpt.post exInp).vars.all fun d =>
+    (match d.2.1 with | some lb => decide (lb ≤ exSigma d.1) | none => true) &&
+    (match d.2.2 with | some ub => decide (exSigma d.1 ≤ ub) | none => true)) = true := by decide +kernel
 
 end Examples
 
